@@ -330,11 +330,12 @@ def r12_2(run):
     run.ob("first-access|_internal_data|not-touched-by-setup", r is None,
            "the option/lookup/pit set-up does not touch the cached internal data", run.where(pf, pf.node))
     # net.converged is reset before the stages
-    stmts = [U(s).replace(" ", "") for s in pf.node.body]
-    i_conv = next((i for i, s in enumerate(stmts) if s == "net.converged=False"), None)
-    i_stage = next((i for i, s in enumerate(stmts) if "hydraulics(net)" in s or "bidirectional(net)" in s), None)
-    run.ob("converged-reset-before-stages", i_conv is not None and i_stage is not None and i_conv < i_stage,
-           "net.converged is reset before any stage runs", run.where(pf, pf.node))
+    from ..arrnf import ANF as _ANF
+    rpf = _ANF(ix, pf, param_alias={pf.params()[0]: "net"}).run()
+    resets = [e for e in rpf.stores() if e.base == ("n", "net") and e.index == (("c", "converged"),) and e.value == ("c", False) and not e.cond]
+    stages = [c for c in rpf.calls() if c.fn[0] == "f" and c.fn[1].rsplit(".", 1)[-1] in ("hydraulics", "heat_transfer", "bidirectional")]
+    run.ob("converged-reset-before-stages", bool(resets) and len(stages) >= 3 and min(e.seq for e in resets) < min(c.seq for c in stages),
+           "net.converged is reset (unconditionally) before any stage runs", run.where(pf, pf.node))
     run.floor(8)
 
 
@@ -355,48 +356,24 @@ def r12_3(run):
                         (pit == "node_pit" and (c.name == "Junction" or ix.is_subclass(c, "BranchWInternalsComponent")))
             if not owns_rows:
                 continue
-            # syntactic order along the super() chain: the template store precedes every other store to the own rows
-            chain = []
-            g = f
-            seen = set()
-            while g is not None and g.qualname not in seen:
-                seen.add(g.qualname)
-                chain.append(g)
-                sup = [cc for cc in calls(g.node) if isinstance(cc.func, ast.Attribute) and isinstance(cc.func.value, ast.Call)
-                       and U(cc.func.value.func) == "super" and cc.func.attr == h]
-                nxt = None
-                if sup:
-                    tg = ix.resolve_call(g, sup[0], dynamic_cls=c)
-                    nxt = tg[0] if tg else None
-                g = nxt
-            init_fn, init_node = None, None
-            for g in chain:
-                for s in own_walk(g.node):
-                    if isinstance(s, ast.Assign) and isinstance(s.targets[0], ast.Subscript) and isinstance(s.targets[0].slice, ast.Tuple) \
-                            and len(s.targets[0].slice.elts) == 2 and all(isinstance(x, ast.Slice) and x.lower is None and x.upper is None
-                                                                          for x in s.targets[0].slice.elts):
-                        init_fn, init_node = g, s
+            # forward substitution of the hook for this class (super() chain and extracted helpers resolved): the full-row
+            # template `pit[:, :] = <row>` must be executed before any column of the own rows is written
             n += 1
-            ok = init_fn is not None
             why = None
-            if ok:
-                # in the function holding the template store no own-row column store precedes it; callers store after the super() call
-                early = [s for s in own_walk(init_fn.node) if isinstance(s, (ast.Assign, ast.AugAssign))
-                         and s.lineno < init_node.lineno and isinstance((s.targets[0] if isinstance(s, ast.Assign) else s.target), ast.Subscript)
-                         and U((s.targets[0] if isinstance(s, ast.Assign) else s.target).value) == U(init_node.targets[0].value)]
+            try:
+                ki, k = hook_summary(ix, c, h, {"option:transient": False, "any:*": True}, partial=True)
+            except (Unsupported, AnalysisError) as ex:
+                raise AnalysisError("unrecognised shape: %s.%s cannot be summarised: %s" % (c.name, h, ex))
+            tmpl = ki.pit_fullinit.get(pit)
+            ok = tmpl is not None
+            if not ok:
+                why = "no full-row template store into %s" % pit
+            else:
+                early = [k_ for k_ in ki.pit_early_writes if k_[0] == pit]
                 if early:
-                    ok, why = False, "store before the template: %s" % U(early[0])[:80]
-                for g in chain[:chain.index(init_fn)]:
-                    sup = [cc for cc in calls(g.node) if isinstance(cc.func, ast.Attribute) and isinstance(cc.func.value, ast.Call)
-                           and U(cc.func.value.func) == "super"]
-                    pre = [s for s in own_walk(g.node) if isinstance(s, (ast.Assign, ast.AugAssign)) and sup and s.lineno < sup[0].lineno
-                           and isinstance((s.targets[0] if isinstance(s, ast.Assign) else s.target), ast.Subscript)
-                           and "pit" in U((s.targets[0] if isinstance(s, ast.Assign) else s.target).value)]
-                    if pre:
-                        ok, why = False, "%s stores into the pit before calling super(): %s" % (g.short, U(pre[0])[:80])
-                tmpl = U(init_node.value).replace(" ", "")
+                    ok, why = False, "column %s is written before the template" % early[0][3]
                 width = "branch_cols-1" if pit == "branch_pit" else "node_cols-3"
-                if width not in tmpl:
+                if width not in tmpl.replace(" ", ""):
                     ok, why = False, "row template does not span all columns: %s" % tmpl
             run.ob("%s.%s|rows-initialised-first" % (c.name, h), ok,
                    "the rows of %s in the %s are set to a full row template before any of their columns is written" % (c.name, pit),
